@@ -4,7 +4,7 @@
 
     Integers of a Rust type are represented by their mathematical value in [Z]; a type is a pair
     (signedness [sg], width [w]); [usize]/[isize] are 64-bit.  A panic is [None]. *)
-From Coq Require Import ZArith List Bool.
+From Coq Require Import ZArith NArith List Bool.
 From Coq Require Import Floats.SpecFloat.
 Import ListNotations.
 Open Scope Z_scope.
@@ -202,3 +202,62 @@ Definition stream (sg : bool) (w : Z) (f : form) (seed : Z) (n : nat) : option (
   opt_snd (draws rng_next sg w f n (from_seed seed)).
 Definition raw_stream (seed : Z) (n : nat) : option (list Z) :=
   opt_snd (raws rng_next n (from_seed seed)).
+
+(** * the const-generic generator [LinearCongruentialGenerator64<A, C>] for arbitrary constants
+    ([Rng] is the instance [lcg_A], [lcg_C]: [gnext lcg_A lcg_C = rng_next], ProofsMix.v) *)
+Definition glcg_step (a c st : Z) : Z := (st * a + c) mod 2 ^ 64.
+Definition gnext_raw (a c st : Z) : Z * Z := let st' := glcg_step a c st in (st', out_mix st').
+Definition gnext (a c st : Z) : option (Z * Z) := Some (gnext_raw a c st).
+
+(** [n] state transitions at once (what [n] calls of [next_raw] whose results are dropped do to the
+    state): the n-th power of the affine map x -> x*a + c (mod 2^64) by repeated squaring.
+    [lcg_jump a c n st] = [glcg_step a c] iterated [n] times on [st] (proved: c14_jump_is_iterated_step);
+    it lets a correspondence case look at the outputs after 2^16 .. 2^24 earlier draws. *)
+Definition aff_app (f : Z * Z) (x : Z) : Z := (x * fst f + snd f) mod 2 ^ 64.
+(** first [f], then [g] *)
+Definition aff_comp (f g : Z * Z) : Z * Z :=
+  ((fst f * fst g) mod 2 ^ 64, (snd f * fst g + snd g) mod 2 ^ 64).
+Fixpoint aff_pow (f : Z * Z) (p : positive) : Z * Z :=
+  match p with
+  | xH => f
+  | xO q => let g := aff_pow f q in aff_comp g g
+  | xI q => let g := aff_pow f q in aff_comp f (aff_comp g g)
+  end.
+Definition lcg_jump (a c : Z) (n : N) (st : Z) : Z :=
+  match n with N0 => st | Npos p => aff_app (aff_pow (a, c) p) st end.
+
+(** * a history of different operations on ONE generator (state threaded through all of them) *)
+Inductive mop :=
+| MDraw (sg : bool) (w : Z) (f : form)   (* g.next(range) of an integer type *)
+| MFloat (s e : Z)                       (* g.next(s..e) of f64, bounds as bit patterns *)
+| MRaw                                   (* g.next_raw() *)
+| MSkip (n : N)                          (* n calls of g.next_raw() whose results are dropped, then one that is observed *)
+| MShuf (n : N)                          (* g.shuffle(&mut [0, 1, .., n-1]) *)
+| MCopy.                                 (* h = copy/clone of g; g.next_raw() is observed; the history continues on h *)
+
+(** one operation: new state and what is observed ([None] = panic) *)
+Definition mix_step (a c : Z) (o : mop) (st : Z) : option (Z * list Z) :=
+  match o with
+  | MDraw sg w f =>
+      match next (gnext a c) sg w f st with Some (st', x) => Some (st', [x]) | None => None end
+  | MFloat s e =>
+      let (st', raw) := gnext_raw a c st in
+      match float_range (sf_of_bits s) (sf_of_bits e) raw with
+      | Some x => Some (st', [bits_of_sf x])
+      | None => None
+      end
+  | MRaw => let (st', r) := gnext_raw a c st in Some (st', [r])
+  | MSkip n => let (st', r) := gnext_raw a c (lcg_jump a c n st) in Some (st', [r])
+  | MShuf n => shuffle (gnext a c) st (map Z.of_nat (seq 0 (N.to_nat n)))
+  | MCopy => Some (st, [snd (gnext_raw a c st)])
+  end.
+(** the observations of a history; it ends at the first panic *)
+Fixpoint mix_run (a c : Z) (ops : list mop) (st : Z) : list (option (list Z)) :=
+  match ops with
+  | [] => []
+  | o :: t =>
+      match mix_step a c o st with
+      | None => [None]
+      | Some (st', l) => Some l :: mix_run a c t st'
+      end
+  end.
